@@ -1692,7 +1692,12 @@ class EnumNode(AstNode):
             # evaluate value
             if member.value is not None:
                 try:
-                    cvalue = int(todict.print_node(member.value))
+                    literal = todict.print_node(member.value)
+                    if len(literal) > 1 and literal[0] == "0":
+                        # C++ reads a leading 0 as an octal literal.
+                        cvalue = int(literal, 8)
+                    else:
+                        cvalue = int(literal)
                     fvalue = cvalue
                     value_is_int = True
                 except ValueError:
